@@ -82,6 +82,9 @@ def drive(sc, b):
     # dense conversion and standard deviations of the outputs
     one = tu.tree_map(lambda s: s[-1], sol.u)
     one.to_multivariate_normal()
+    # full-state log-density of the terminal marginal at its own mean (log-determinant term): up to 27 pivots spanning many
+    # orders of magnitude (the losses only ever evaluate d-dimensional observed marginals)
+    one.logpdf_flat(one.mean_flat)
     # monitor-executed probes on operands the run produced: the library itself never reverts or merges a
     # conditional that carries BOTH a non-zero offset and non-unit scalings (backward transitions of the
     # fixed-interval smoother do), so the monitor does it here with run states as operands
